@@ -75,6 +75,13 @@ func boolOpt(m protoreflect.MethodDescriptor, ext protoreflect.ExtensionType) bo
 	return v
 }
 
+// explicitOff spells per_node_arg out as "= false" for the synthetic methods named ...PerNodeOff.
+func explicitOff(name string, o *descriptorpb.MethodOptions) {
+	if strings.HasSuffix(name, "PerNodeOff") {
+		proto.SetExtension(o, gorums.E_PerNodeArg, false)
+	}
+}
+
 // snake spells a CamelCase method name in lower_snake_case; camel is protoc-gen-go's inverse.
 func snake(s string) string {
 	var b []byte
@@ -318,6 +325,10 @@ func synthRequest(param string) []byte {
 		{"Corr", mdT, mdT, []protoreflect.ExtensionType{gorums.E_Correctable}, false},
 		{"CorrPerNode", emT, mdT, []protoreflect.ExtensionType{gorums.E_Correctable, gorums.E_PerNodeArg}, false},
 		{"CorrStream", mdT, emT, []protoreflect.ExtensionType{gorums.E_Correctable}, true},
+		// options spelled out as "= false" (see explicitOff): whatever the generator makes of them, the
+		// stub's signature and body must agree
+		{"QuorumPerNodeOff", mdT, mdT, []protoreflect.ExtensionType{gorums.E_Quorumcall}, false},
+		{"MultiPerNodeOff", mdT, emT, []protoreflect.ExtensionType{gorums.E_Multicast}, false},
 	}
 	// a second file generated in the SAME plugin run: the same method names with other call types
 	// (anything the generator remembers per method name across files shows up here)
@@ -343,6 +354,7 @@ func synthRequest(param string) []byte {
 				for _, e := range m.opts {
 					proto.SetExtension(md.Options, e, true)
 				}
+				explicitOff(m.name, md.Options)
 			}
 			svc.Method = append(svc.Method, md)
 		}
@@ -365,6 +377,7 @@ func synthRequest(param string) []byte {
 			for _, e := range m.opts {
 				proto.SetExtension(md.Options, e, true)
 			}
+			explicitOff(m.name, md.Options)
 		}
 		svc.Method = append(svc.Method, md)
 	}
